@@ -10,3 +10,9 @@ func VerifChunkSizeForIndex(fileSize int64, chunkSize uint32, idx uint32) uint32
 }
 
 const VerifMaxFileSize = int64(maxFileSize)
+
+// VerifWriteLateChunk runs the receiver's write of a chunk that arrives after its file was
+// finalised (a third place where a chunk index is turned into a file offset).
+func VerifWriteLateChunk(path string, chunkSize uint32, idx uint32, data []byte) error {
+	return writeLateChunk(&recvFileStateMux{filePath: path, chunkSize: chunkSize}, idx, data)
+}
